@@ -325,21 +325,41 @@ func c15observe(s ref.Store, m *c15model, g *c15group) string {
 			}
 		}
 	}
-	// two prefixes at once
+	// two prefixes at once, in both orders, without and with an exclusion drawn from either prefix's subtree
 	if len(g.prefixes) >= 3 {
-		ps := []string{g.prefixes[1], g.prefixes[2]}
-		want := map[string][]byte{}
-		for k, v := range m.refs {
-			if c15hasAnyPrefix(k, ps) {
-				want[k] = v
+		np := len(g.prefixes)
+		if np > 5 {
+			np = 5
+		}
+		for a := 1; a < np; a++ {
+			for b := 1; b < np; b++ {
+				if a == b {
+					continue
+				}
+				ps := []string{g.prefixes[a], g.prefixes[b]}
+				var excl [][]string
+				excl = append(excl, nil)
+				for _, n := range g.names {
+					if c15hasAnyPrefix(n, ps) {
+						excl = append(excl, []string{n})
+					}
+				}
+				for _, nps := range excl {
+					want := map[string][]byte{}
+					for k, v := range m.refs {
+						if c15hasAnyPrefix(k, ps) && !c15hasAnyPrefix(k, nps) {
+							want[k] = v
+						}
+					}
+					got, err := s.Filter(ps, nps)
+					if err != nil {
+						return fmt.Sprintf("Filter(%q, not %q) returned %v", ps, nps, err)
+					}
+					if d := c15mapDiff(got, want); d != "" {
+						return fmt.Sprintf("Filter(%q, not %q): %s", ps, nps, d)
+					}
+				}
 			}
-		}
-		got, err := s.Filter(ps, nil)
-		if err != nil {
-			return fmt.Sprintf("Filter(%q) returned %v", ps, err)
-		}
-		if d := c15mapDiff(got, want); d != "" {
-			return fmt.Sprintf("Filter(%q): %s", ps, d)
 		}
 	}
 	for _, r := range g.remotes {
@@ -595,7 +615,7 @@ func init() {
 		Rule: "explicit-state BFS over mutator sequences (Set, SaveRef/SetWithLog, Delete, Rename, Copy, DeleteAllRemoteRefs, RenameAllRemoteRefs) on the real SQL ref store " +
 			"(in-memory SQLite, the repository's schema) over names containing '_', '%', case variants, nested paths and prefixes of one another; " +
 			"a state is the dump of every refs row and every reflogs row; after every transition every observer (Get and log drain of every name, Filter/FilterKey for every " +
-			"(prefix, not-prefix) pair drawn from the names' own prefixes, ListHeads, ListRemoteRefs, ListAllRefs, ListLocalRefs) is compared with a map + per-name log slices model. " +
+			"(prefix, not-prefix) pair drawn from the names' own prefixes, Filter with two prefixes in both orders with and without an excluded name, ListHeads, ListRemoteRefs, ListAllRefs, ListLocalRefs) is compared with a map + per-name log slices model. " +
 			"distinct_nontrivial = distinct states reached",
 		Assumptions: []string{
 			"rename/copy onto an existing name may either fail leaving everything unchanged (SQL store) or overwrite (file store); both are accepted",
